@@ -16,7 +16,7 @@ Proof. reflexivity. Qed.
 
 (* ------------------------------------------------------------------ deciders for the grammar *)
 Definition mk_eqb (a b : mk) : bool :=
-  match a, b with KCcs, KCcs => true | KHs x, KHs y => Z.eqb x y | _, _ => false end.
+  match a, b with KCcs, KCcs => true | KHs x, KHs y => Z.eqb x y | KCh0, KCh0 => true | _, _ => false end.
 Fixpoint mks_eqb (a b : list mk) : bool :=
   match a, b with
   | [], [] => true
@@ -74,15 +74,18 @@ Fixpoint strip_nst (l : list mk) : list mk * list mk :=      (* (body, trailing 
               end
   end.
 
+Definition dflows (md : mode) (nsts : list mk) : list (list (side * mk)) :=
+  flows md nsts ++ (if md_dtls md then map (app cookie_round) (flows md nsts) else []).
 Definition legalb (md : mode) (l : list mk) : bool :=
   let nsts := if md_v13 md && negb (md_server md) then snd (strip_nst l) else [] in
-  existsb (fun f => cauth_okb md f && mks_eqb l (received md f)) (flows md nsts).
+  existsb (fun f => cauth_okb md f && mks_eqb (dsquash md l) (received md f)) (dflows md nsts).
 
 (* ------------------------------------------------------------------ candidate completions of a log *)
 Definition canon (k : mk) : item :=
   match k with
   | KCcs => MCcs
-  | KHs t => MHs (mkmsg t (if Z.eqb t FIN then BFin true else BPlain))
+  | KHs t => MHs (mkmsg t (if Z.eqb t FIN then BFin true else BPlain) MExp)
+  | KCh0 => MHs (mkmsg CH BHelloNoCookie MExp)
   end.
 Fixpoint is_prefix (a b : list mk) : bool :=
   match a, b with
@@ -92,20 +95,21 @@ Fixpoint is_prefix (a b : list mk) : bool :=
   end.
 (* for a log that already holds its final hello: every legal sequence of its mode that extends it *)
 Definition ext_known (md : mode) (l : list item) : list (list item) :=
+  let mine := dsquash md (kinds l) in
   flat_map (fun f => let ks := received md f in
-                     if cauth_okb md f && is_prefix (kinds l) ks then [map canon (skipn (length l) ks)] else [])
-           (flows md []).
+                     if cauth_okb md f && is_prefix mine ks then [map canon (skipn (length mine) ks)] else [])
+           (dflows md []).
 (* for a log without its final hello: one plain handshake of the configured kind *)
 Definition ext_fresh (c : cfg) : list item :=
   if c_v13 c then
     if c_server c then
-      MHs (mkmsg CH (BHello13 false false false)) :: map canon (when (c_cauth c) [KHs CERT; KHs CVFY] ++ [KHs FIN])
-    else MHs (mkmsg SH (BHello13 false false false)) :: map canon [KHs EE; KHs CERT; KHs CVFY; KHs FIN]
+      MHs (mkmsg CH (BHello13 false false false) MExp) :: map canon (when (c_cauth c) [KHs CERT; KHs CVFY] ++ [KHs FIN])
+    else MHs (mkmsg SH (BHello13 false false false) MExp) :: map canon [KHs EE; KHs CERT; KHs CVFY; KHs FIN]
   else
     if c_server c then
-      MHs (mkmsg CH (BHello12 false false false false false)) ::
+      MHs (mkmsg CH (BHello12 false false false false false) MExp) ::
       map canon (when (c_cauth c) [KHs CERT] ++ [KHs CKE] ++ when (c_cauth c) [KHs CVFY] ++ [KCcs; KHs FIN])
-    else MHs (mkmsg SH (BHello12 false false false false false)) :: map canon [KHs CERT; KHs SHD; KCcs; KHs FIN].
+    else MHs (mkmsg SH (BHello12 false false false false false) MExp) :: map canon [KHs CERT; KHs SHD; KCcs; KHs FIN].
 Definition extensions (c : cfg) (l : list item) : list (list item) :=
   match negotiated c l with
   | Some md => ext_known md l
@@ -120,7 +124,7 @@ Definition prefix_okb (c : cfg) (l : list item) : bool :=
 (* ------------------------------------------------------------------ the exploration *)
 Definition bools := [false; true].
 Definition bodies : list body :=
-  [BFail; BPlain; BFin true; BFin false] ++
+  [BFail; BPlain; BFin true; BFin false; BHelloNoCookie] ++
   flat_map (fun a => flat_map (fun b => flat_map (fun c => flat_map (fun d => map (fun e => BHello12 a b c d e) bools) bools) bools) bools) bools ++
   flat_map (fun a => flat_map (fun b => map (fun c => BHello13 a b c) bools) bools) bools.
 (* every value ssl->hsState can hold and every handshake type the code compares with *)
@@ -128,7 +132,9 @@ Definition types : list Z :=
   [HREQ; CH; SH; c_SSL_HS_HELLO_VERIFY_REQUEST; NST; EOED; EE; CERT; SKE; CREQ; SHD; CVFY; CKE; FIN; CSTAT;
    S_START; S_RECVD_CH; c_SSL_HS_TLS_1_3_NEGOTIATED; h_SSL_HS_TLS_1_3_WAIT_FLIGHT_2; S_WAIT_EOED; S_WAIT_CERT; S_WAIT_CV;
    S_WAIT_FIN; S_SEND_NST; S_WAIT_SH; S_WAIT_EE; S_WAIT_CERT_CR; S_SEND_FIN; h_SSL_HS_ALERT; h_SSL_HS_CCC; h_SSL_HS_NONE; DONE].
-Definition alphabet : list input := ICcs :: flat_map (fun t => map (fun b => IHs (mkmsg t b)) bodies) types.
+Definition classes : list mcls := [MExp; MZero; MStale; MFut].
+Definition alphabet : list input :=
+  ICcs :: flat_map (fun t => flat_map (fun b => map (fun c => IHs (mkmsg t b c)) classes) bodies) types.
 
 Definition item_of (i : input) : item := match i with ICcs => MCcs | IHs m => MHs m end.
 Definition body_eqb (a b : body) : bool :=
@@ -137,12 +143,15 @@ Definition body_eqb (a b : body) : bool :=
   | BFin x, BFin y => Bool.eqb x y
   | BHello12 a1 a2 a3 a4 a5, BHello12 b1 b2 b3 b4 b5 => Bool.eqb a1 b1 && Bool.eqb a2 b2 && Bool.eqb a3 b3 && Bool.eqb a4 b4 && Bool.eqb a5 b5
   | BHello13 a1 a2 a3, BHello13 b1 b2 b3 => Bool.eqb a1 b1 && Bool.eqb a2 b2 && Bool.eqb a3 b3
+  | BHelloNoCookie, BHelloNoCookie => true
   | _, _ => false
   end.
+Definition mcls_eqb (a b : mcls) : bool :=
+  match a, b with MExp, MExp | MZero, MZero | MStale, MStale | MFut, MFut => true | _, _ => false end.
 Definition item_eqb (a b : item) : bool :=
   match a, b with
   | MCcs, MCcs => true
-  | MHs x, MHs y => Z.eqb (m_typ x) (m_typ y) && body_eqb (m_body x) (m_body y)
+  | MHs x, MHs y => Z.eqb (m_typ x) (m_typ y) && body_eqb (m_body x) (m_body y) && mcls_eqb (m_cls x) (m_cls y)
   | _, _ => false
   end.
 Fixpoint items_eqb (a b : list item) : bool :=
@@ -161,7 +170,7 @@ Fixpoint tents_eqb (a b : list tent) : bool :=
   end.
 
 Definition is_fin_true (i : input) : bool :=
-  match i with IHs (mkmsg t (BFin true)) => Z.eqb t FIN | _ => false end.
+  match i with IHs (mkmsg t (BFin true) _) => Z.eqb t FIN | _ => false end.
 Definition is_fin_typ (i : input) : bool := match i with IHs m => Z.eqb (m_typ m) FIN | _ => false end.
 Definition has_kind (k : mk) (l : list item) : bool := existsb (mk_eqb k) (kinds l).
 
@@ -180,11 +189,22 @@ Definition noskipb (md : mode) (l : list item) : bool := forallb (fun k => has_k
 
 Definition doneb (c : cfg) (s : hst) : bool :=
   match negotiated c (acc s) with
-  | Some md => legalb md (kinds (acc s)) && Bool.eqb (v13 s) (md_v13 md) && Bool.eqb (server s) (md_server md) && noskipb md (acc s)
+  | Some md => legalb md (kinds (acc s)) && Bool.eqb (v13 s) (md_v13 md) && Bool.eqb (server s) (md_server md) && noskipb md (acc s) &&
+               Bool.eqb (dtls s) (md_dtls md)
   | None => false
   end.
 Definition good (c : cfg) (s : hst) : bool :=
-  prefix_okb c (acc s) && existsb (Z.eqb (hs s)) types && (if Z.eqb (hs s) DONE then doneb c s else true).
+  prefix_okb c (acc s) && existsb (Z.eqb (hs s)) types && (if Z.eqb (hs s) DONE then doneb c s else true) && negb (dtls s && v13 s).
+
+(* equality of states (the outcomes that leave the session untouched are checked to do so) *)
+Definition hst_eqb (a b : hst) : bool :=
+  Bool.eqb (server a) (server b) && Bool.eqb (v13 a) (v13 b) && Z.eqb (hs a) (hs b) && Bool.eqb (rsec a) (rsec b) &&
+  Bool.eqb (wsec a) (wsec b) && Bool.eqb (err a) (err b) && Bool.eqb (resumed a) (resumed b) && Bool.eqb (cauth a) (cauth b) &&
+  Bool.eqb (psk a) (psk b) && Bool.eqb (dhe a) (dhe b) && Z.eqb (tick a) (tick b) && Bool.eqb (status a) (status b) &&
+  Bool.eqb (lastccs a) (lastccs b) && Bool.eqb (usingpsk a) (usingpsk b) && Bool.eqb (hrr a) (hrr b) && Bool.eqb (early a) (early b) &&
+  Bool.eqb (tickkeys a) (tickkeys b) && Bool.eqb (gotcr a) (gotcr b) && Bool.eqb (dtls a) (dtls b) && Bool.eqb (cookie a) (cookie b) &&
+  items_eqb (acc a) (acc b) && tents_eqb (tr a) (tr b) && tents_eqb (snap a) (snap b).
+Definition not_expected (i : input) : bool := match i with ICcs => true | IHs m => negb (mcls_eqb (m_cls m) MExp) end.
 
 Definition fatal_out (o : out) : bool := match o with OFatal _ | OFail => true | _ => false end.
 
@@ -202,6 +222,10 @@ Fixpoint explore (n : nat) (c : cfg) (s : hst) : bool :=
           (if is_fin_typ i && negb (v13 s) then rsec s else true) &&
           (if Z.eqb (hs s') DONE then is_fin_true i && tents_eqb (snap s') (tr s) else explore n' c s')
       | OIgnore => match i with ICcs => v13 s | _ => false end
+      (* DTLS: dropped, session untouched - a ChangeCipherSpec (no message_seq) or a message whose message_seq is not the expected one *)
+      | ODrop _ => dtls s && not_expected i && hst_eqb s s'
+      (* DTLS server: cookie-less ClientHello answered statelessly; the log can still become legal (optional cookie exchange) *)
+      | OHvr => dtls s && hst_eqb s s' && prefix_okb c (acc s ++ [item_of i])
       | OWarn _ => false
       | ORefuse => false
       end) alphabet
@@ -209,7 +233,8 @@ Fixpoint explore (n : nat) (c : cfg) (s : hst) : bool :=
 
 Definition all_cfgs : list cfg :=
   flat_map (fun a => flat_map (fun b => map (fun d => Server a b d) bools) bools) bools ++
-  flat_map (fun a => map (fun t => Client a t) [T_NOSID; T_INIT; T_SENT_EMPTY; T_SENT_TICKET]) bools.
+  flat_map (fun a => map (fun t => Client a t) [T_NOSID; T_INIT; T_SENT_EMPTY; T_SENT_TICKET]) bools ++
+  map DServer bools ++ map DClient [T_NOSID; T_INIT; T_SENT_EMPTY; T_SENT_TICKET].
 Definition start_ok (c : cfg) : bool := negb (err (init c)) && negb (Z.eqb (hs (init c)) DONE) && good c (init c) && explore 16 c (init c).
 
 (* ================================================================== soundness of the deciders *)
